@@ -220,7 +220,12 @@ func genC20(t *rapid.T) *C20Case {
 	}
 	pts := collectInjPoints(f)
 	kinds := []string{"break-outside", "continue-outside-loop", "continue-not-last", "continue-last-in-poryswitch-case", "duplicate-case", "second-default", "redefined-const", "text-name-clash", "movement-name-clash", "label-clash-sublabel", "label-clash-text"}
+	// rarely applicable kinds first (a uniformly random order would almost always end in break / continue injections)
+	rare := []string{"second-default", "duplicate-case", "continue-last-in-poryswitch-case", "continue-not-last", "label-clash-sublabel", "text-name-clash", "movement-name-clash", "label-clash-text"}
 	order := rapid.Permutation(kinds).Draw(t, "kinds")
+	if rapid.IntRange(0, 2).Draw(t, "rarefirst") != 0 {
+		order = append(rapid.Permutation(rare).Draw(t, "rarekinds"), order...)
+	}
 	for _, kind := range order {
 		switch kind {
 		case "break-outside", "continue-outside-loop", "continue-not-last":
